@@ -263,9 +263,11 @@ def make_interp(mutants=None, merged=False):
     """scalar clauses: gray_to_binary's loop forks per trip count (the merged encoding of the round trip is
     out of z3's reach, DESIGN 2.2); array clauses: three loops would fork 61^3 ways, and both sides of the
     element-wise comparison run the same code, so there the loop is unrolled under guards (merge mode,
-    61 unrollings, unwinding assertion checked by the solver)."""
+    61 unrollings, unwinding assertion checked by the solver).  In the scalar clauses the early exits
+    (`if num == <literal>: return ...`) fork as well: each path is then ite-free shift/xor arithmetic, which
+    z3's rewriter decides at once, whereas the merged form leaves a 60-bit xor chain to the SAT solver."""
     return e2.Interp(W, classes=(), default_loop="merge" if merged else "fork", max_unroll=70,
-                     unroll={"gray_to_binary": NB + 1} if merged else None,
+                     unroll={"gray_to_binary": NB + 1} if merged else None, fork_on_return=not merged,
                      fn_stubs={torch.tensor: _stub_tensor, torch.zeros_like: _stub_zeros_like}, mutants=mutants)
 
 
